@@ -429,6 +429,10 @@ def judge_hole(rec, hole, collar, rows, given_depth, given_int, tol, where):
                 rec.fail("C18.value", op=where, cls="Drillhole", attr="missing-data", detail=f"depth data {name} disappeared")
                 continue
             vals = dd[0].values
+            # one vertex per depth: a depth given in several logs (exactly, or within the tolerance) is the same vertex for all
+            for dgiven in table:
+                same = [i for i in range(n) if not np.isnan(depths[i]) and abs(depths[i] - dgiven) <= min(tol, 1e-2) * 1.0001 + 1e-9]
+                rec.check("C18.value", len(same) <= 1, op=where, cls="Drillhole", attr="duplicate-vertex", detail=f"{name}: depth {dgiven} is carried by {len(same)} vertices (DEPTH={np.round(depths, 4).tolist()})")
             if isinstance(vals, np.ndarray) and vals.dtype.kind in "USO":
                 tv_ = [x.decode() if isinstance(x, bytes) else str(x) for x in vals.tolist()] + [""] * max(n - len(vals), 0)
                 matched = set()
